@@ -1,13 +1,46 @@
 /-
-  Line-protocol handlers for C09: none needed beyond the shared ones (the check observes object
-  identity and caches on the implementation; see harness/props/c09.py).
+  Line-protocol handlers for C09: the object-level model of the genotype operators (`Model/Heap.lean`).
+  `(C09 heap_run (op …))` executes the operations from the empty heap and returns the object graph after EVERY
+  operation (all genotype objects ever made, addresses renamed by first occurrence); the harness compares each with
+  the real graph (`id()` of the gene lists).  Everything else C09 observes lives on the implementation
+  (see harness/props/c09.py).
 -/
 import GEVerif.Model.Sexp
+import GEVerif.Model.Heap
 
 namespace GEVerif.Drive.C09
-open GEVerif Sexp
+open GEVerif Sexp GEVerif.Heap
+
+def parseContent (s : Sexp) : Option (List (Nat × List Int)) := do
+  let xs ← s.asList?
+  xs.mapM fun
+    | list [k, genes] => do pure (← k.asNat?, ← genes.asInts?)
+    | _ => none
+
+def parseOp : Sexp → Option Op
+  | list [atom "fc", genes] => do pure (.flatCreate (← genes.asInts?))
+  | list [atom "sc", c] => do pure (.structCreate (← parseContent c))
+  | list [atom "fm", g, r, v] => do pure (.flatMutate (← g.asNat?) (← r.asNat?) (← v.asInt?))
+  | list [atom "fx", g1, g2, cut] => do pure (.flatCrossover (← g1.asNat?) (← g2.asNat?) (← cut.asNat?))
+  | list [atom "sm", g, atom "none"] => do pure (.structMutate (← g.asNat?) none)
+  | list [atom "sm", g, list [k, r, v]] => do pure (.structMutate (← g.asNat?) (some (← k.asNat?, ← r.asNat?, ← v.asInt?)))
+  | list [atom "sx", g1, g2, mask] => do
+      pure (.structCrossover (← g1.asNat?) (← g2.asNat?) (← (← mask.asList?).mapM asBool?))
+  | list [atom "map", g, ext] => do pure (.dsgeMap (← g.asNat?) (← parseContent ext))
+  | _ => none
+
+def dumpSx (d : List (List (Nat × Nat × List Int))) : Sexp :=
+  list (d.map fun geno => list (geno.map fun (k, c, genes) => list [ofNat k, ofNat c, ofInts genes]))
+
+/-- the graph after every operation -/
+def runDumps (h : Heap) : List Op → List Sexp
+  | [] => []
+  | op :: rest => let h' := step h op; dumpSx (dump h') :: runDumps h' rest
 
 def handle : List Sexp → Option Sexp
+  | [atom "heap_run", ops] => do
+      let ops ← (← ops.asList?).mapM parseOp
+      pure (list (runDumps empty ops))
   | _ => none
 
 end GEVerif.Drive.C09
